@@ -8,6 +8,7 @@ import (
 	"os"
 	"runtime"
 	"sort"
+	"strconv"
 	"strings"
 	"sync"
 	"time"
@@ -31,6 +32,9 @@ type Scenario struct {
 	// AfterTx: extra per-transaction oracle
 	AfterTx     func(e *Exec, obs *TxObs, pre, post map[string][]mc.KV) []Disc
 	PostProcess func(e *Exec, discs []Disc) []Disc
+	// VisitPure: Visit only reads (no observations kept in the model state), so executions that run
+	// without oracles (conformance replays) may skip it
+	VisitPure bool
 	// Annotate adds discrete facts to discrepancies (known-finding signatures)
 	Annotate func(e *Exec, d *Disc, tx *model.Tx)
 	// Setup is run on every fresh world right after genesis (harness-level, e.g. funding by keeper is NOT allowed; only tx prefixes)
@@ -219,8 +223,9 @@ func (s *Scenario) Explore(opt Options) (Stats, []Violation) {
 		opt.ReplayEvery = 1
 	}
 	if opt.MaxViol <= 0 {
-		opt.MaxViol = 20
+		opt.MaxViol = 40
 	}
+	opt.Budget = ScaleBudget(opt.Budget)
 	st := Stats{Scenario: s.Name, Outcomes: map[string]int{}, Foreign: map[string]int{}}
 	for _, a := range s.Actions {
 		st.Actions = append(st.Actions, a.Name)
@@ -229,7 +234,7 @@ func (s *Scenario) Explore(opt Options) (Stats, []Violation) {
 	perKind := map[string]int{}
 	addViol := func(path []string, d Disc, obs *StepObs) {
 		perKind[d.Kind]++
-		if len(viols) < opt.MaxViol && perKind[d.Kind] <= 2 { // shortest counterexamples first (BFS order); two per kind
+		if len(viols) < opt.MaxViol && perKind[d.Kind] <= 4 { // shortest counterexamples first (BFS order); four per kind
 			viols = append(viols, Violation{Property: opt.Property, Scenario: s.Name, Path: path, Disc: d, Step: obs})
 		}
 	}
@@ -312,6 +317,9 @@ func (s *Scenario) Explore(opt Options) (Stats, []Violation) {
 			}
 			for ai := range s.Actions {
 				a := &s.Actions[ai]
+				if a.PrefixOnly {
+					continue
+				}
 				if a.Enabled == nil || a.Enabled(n.m, n.aux) {
 					jobs = append(jobs, job{pi, ai})
 				}
@@ -497,6 +505,16 @@ func (s *Scenario) Explore(opt Options) (Stats, []Violation) {
 	return st, viols
 }
 
+// ScaleBudget multiplies a wall-clock budget by VERIF_BUDGET_MULT (a positive integer; used when the
+// machine is shared with other jobs, e.g. while trying seeded changes in parallel). Budgets only ever
+// end a run early with exhaustive:false; they never influence a verdict.
+func ScaleBudget(d time.Duration) time.Duration {
+	if n, err := strconv.Atoi(os.Getenv("VERIF_BUDGET_MULT")); err == nil && n > 0 {
+		return d * time.Duration(n)
+	}
+	return d
+}
+
 func cloneAux(a map[string]int) map[string]int {
 	o := make(map[string]int, len(a))
 	for k, v := range a {
@@ -508,6 +526,9 @@ func cloneAux(a map[string]int) map[string]int {
 // ReplayPath replays a path of action indices on a fresh application without restore.
 func (s *Scenario) ReplayPath(path []int, oracle bool) (*Exec, []StepObs) {
 	e := s.NewExec()
+	if !oracle && s.VisitPure {
+		e.Visit = nil
+	}
 	var out []StepObs
 	for _, ai := range path {
 		obs, _ := e.Run(&s.Actions[ai], oracle)
